@@ -1,5 +1,6 @@
 import Driver.Util
 import Amqp.Model.Consumers
+import Amqp.Model.TagReuse
 open Amqp Amqp.Consumers
 namespace Driver.C14
 
@@ -22,8 +23,28 @@ def parseAct (x : String) : Option Act :=
   | ["D", tag] => some (.dispatch tag)
   | _ => none
 
+/-- tag-reuse histories: `c:tag:cb` consume, `x:tag` cancel, `b:tag` broker cancel, `d:tag` deliver -/
+def parseOp (x : String) : Option TagReuse.Op :=
+  match x.splitOn ":" with
+  | ["c", tag, cb] => cb.toNat?.map fun cb => .consume tag cb
+  | ["x", tag] => some (.cancel tag)
+  | ["b", tag] => some (.brokerCancel tag)
+  | ["d", tag] => some (.deliver tag)
+  | _ => none
+
+def showOut (o : String × Option Nat) : String :=
+  match o.2 with
+  | some cb => s!"{o.1}:{cb}"
+  | none => s!"{o.1}:KeyError"
+
 def stepCmd (s : S) : List String → Option (S × String)
   | ["c14.reset"] => some ({}, "ok")
+  | ["c14.tags", ops] =>
+    match (ops.splitOn ",").mapM parseOp with
+    | none => some (s, "bad-op")
+    | some os =>
+      let r := TagReuse.run os
+      some (s, s!"out={showL (r.out.map showOut)} tags={showL r.tags}")
   | ["c14.act", a] =>
     match parseAct a with
     | none => some (s, "bad-op")
